@@ -5,6 +5,7 @@ from bip_utils import Base58XmrEncoder, Base58XmrDecoder
 from bip_utils.utils.misc import BytesUtils, IntegerUtils
 from modeldrv import Z, T
 from bip_utils.bech32.bech32_base import Bech32BaseUtils
+from bip_utils.utils.misc import Base32Decoder, Base32Encoder
 
 ALPHS = [Base58Alphabets.BITCOIN, Base58Alphabets.RIPPLE]
 
@@ -510,6 +511,118 @@ def gen_convertbits(ctx):
         ctx.run("convert_bits", [data, fb, tb, rng.randrange(2)], "generic")
 
 
+# ------------------------------------------------------------------ Base32
+RFC32 = "ABCDEFGHIJKLMNOPQRSTUVWXYZ234567"
+CUSTOMS = [None,
+           "abcdefghijklmnopqrstuvwxyz234567",          # Filecoin / Nano style lower case
+           "13456789abcdefghijkmnopqrstuwxyz",          # Nano
+           "0123456789ABCDEFGHJKMNPQRSTVWXYZ",          # Crockford
+           "ZYXWVUTSRQPONMLKJIHGFEDCBA765432",          # permutation of the RFC alphabet
+           "αβγδεζηθικλμνξοπ"
+           "ρστυφχψωабвгдежз"]   # non-ASCII
+BAD_CUSTOMS = ["abc", "", RFC32 + "8", "AACDEFGHIJKLMNOPQRSTUVWXYZ234567", "=BCDEFGHIJKLMNOPQRSTUVWXYZ234567"]
+
+
+def _copt(c):
+    return [] if c is None else [c]
+
+
+def b32_ref(b, alph=RFC32):
+    """RFC 4648 section 6 from the text: 40-bit groups, 5 bits per character, '=' to a multiple of 8."""
+    bits = "".join(format(x, "08b") for x in b)
+    bits += "0" * (-len(bits) % 5)
+    out = "".join(alph[int(bits[i:i + 5], 2)] for i in range(0, len(bits), 5))
+    return out + "=" * (-len(out) % 8)
+
+
+def d_b32enc(a):
+    b, ci = a
+    c = (CUSTOMS + BAD_CUSTOMS)[ci]
+    try:
+        e = Base32Encoder.Encode(b, c)
+        n = Base32Encoder.EncodeNoPadding(b, c)
+    except ValueError:
+        return None if (c is not None and len(c) != 32) else "Encode raised ValueError for alphabet %r" % c
+    if c is None or (len(set(c)) == 32 and "=" not in c):
+        want = b32_ref(b, c or RFC32)
+        if e != want or n != want.rstrip("="):
+            return "Base32 of %s = %r / %r, RFC 4648 gives %r" % (b.hex(), e, n, want)
+        for t in (e, n):
+            d = Base32Decoder.Decode(t, c)
+            if d != b:
+                return "Base32 decode(%r) = %s != %s" % (t, d.hex(), b.hex())
+    return None
+
+
+FUNCS.update({
+    "b32_encode": Func(model=lambda m, a: m.call("b32_encode", a[0], _copt((CUSTOMS + BAD_CUSTOMS)[a[1]])),
+                       impl=lambda a: Base32Encoder.Encode(a[0], (CUSTOMS + BAD_CUSTOMS)[a[1]]), direct=d_b32enc),
+    "b32_encode_nopad": Func(model=lambda m, a: m.call("b32_encode_nopad", a[0], _copt((CUSTOMS + BAD_CUSTOMS)[a[1]])),
+                             impl=lambda a: Base32Encoder.EncodeNoPadding(a[0], (CUSTOMS + BAD_CUSTOMS)[a[1]])),
+    "b32_decode": Func(model=lambda m, a: m.call("b32_decode", a[0], _copt((CUSTOMS + BAD_CUSTOMS)[a[1]])),
+                       impl=lambda a: Base32Decoder.Decode(a[0], (CUSTOMS + BAD_CUSTOMS)[a[1]])),
+})
+
+
+def gen_base32(ctx):
+    rng = ctx.rng
+    allc = CUSTOMS + BAD_CUSTOMS
+    two = range(65536) if not ctx.quick else list(range(0, 200)) + [rng.randrange(65536) for _ in range(300)]
+    small = [b""] + [bytes([x]) for x in range(256)] + [x.to_bytes(2, "big") for x in two]
+    for b in small:
+        for ci in ((0, 1) if ctx.quick else range(len(CUSTOMS))):
+            ctx.run("b32_encode", [b, ci], "len0-2", trivial=(b == b""))
+            ctx.run("b32_encode_nopad", [b, ci], "len0-2", trivial=(b == b""))
+    # every length mod 5, every alphabet (valid and invalid)
+    for n in range(0, 16):
+        for ci in range(len(allc)):
+            for fill in (b"\x00", b"\xff", None):
+                b = fill * n if fill else bytes(rng.randrange(256) for _ in range(n))
+                ctx.run("b32_encode", [b, ci], "lenmod5", trivial=(n == 0))
+                ctx.run("b32_encode_nopad", [b, ci], "lenmod5", trivial=(n == 0))
+                if allc[ci] is None or len(allc[ci]) == 32:
+                    e = Base32Encoder.Encode(b, allc[ci])
+                    ctx.run("b32_decode", [e, ci], "valid", trivial=(n == 0))
+                    ctx.run("b32_decode", [e.rstrip("="), ci], "valid-nopad", trivial=(n == 0))
+    # decoder acceptance: all strings of length <= 2 over a mixed character set, every pad count, trailing bits
+    chars = "AZ27a=1 é"
+    ctx.run("b32_decode", ["", 0], "len0", trivial=True)
+    for c in chars:
+        ctx.run("b32_decode", [c, 0], "len1")
+        for d in chars:
+            ctx.run("b32_decode", [c + d, 0], "len2")
+    for c in RFC32:
+        for d in RFC32:
+            ctx.run("b32_decode", [c + d, 0], "sym2")            # non-zero trailing bits are accepted by b32decode
+    for k in range(0, 9):
+        for p in range(0, 18):
+            ctx.run("b32_decode", ["B" * k + "=" * p, 0], "padcount")
+            ctx.run("b32_decode", ["7" * k + "=" * p, 1], "padcount")
+    ctx.note_exhaustive("Base32: all byte strings of length 0..1 (2 in thorough) x alphabets; every length 0..15; decoder on all "
+                        "2-symbol strings and every (symbols 0..8) x (pad count 0..17)")
+    for _ in range(ctx.n(300, 5000)):
+        b = rand_bytes(rng, 70)
+        ci = rng.randrange(len(CUSTOMS))
+        ctx.run("b32_encode", [b, ci], "rand")
+        ctx.run("b32_encode_nopad", [b, ci], "rand")
+        e = Base32Encoder.Encode(b, CUSTOMS[ci])
+        t = list(e if rng.randrange(2) else e.rstrip("="))
+        k = rng.randrange(6)
+        alph = CUSTOMS[ci] or RFC32
+        if t and k == 0:
+            t[rng.randrange(len(t))] = rng.choice(alph)
+        elif t and k == 1:
+            t[rng.randrange(len(t))] = rng.choice("=018 aéA")
+        elif k == 2:
+            t.insert(rng.randrange(len(t) + 1), rng.choice(alph + "="))
+        elif t and k == 3:
+            del t[rng.randrange(len(t))]
+        elif k == 4:
+            t = t[:rng.randrange(len(t) + 1)]
+        ctx.run("b32_decode", ["".join(t), ci], "mutated")
+        ctx.run("b32_decode", ["".join(t), rng.randrange(len(allc))], "mutated-otheralph")
+
+
 def rand_bytes(rng, maxlen=200):
     k = rng.choice([0, 0, 1, 2, 3])
     n = rng.choice([0, 1, 2, 3, 4, 5, 8, 16, 20, 21, 25, 32, 33, 37, 64, 65, 78, 82, rng.randrange(maxlen)])
@@ -521,6 +634,7 @@ def generate(ctx):
     gen_xmr(ctx)
     gen_intbytes(ctx)
     gen_convertbits(ctx)
+    gen_base32(ctx)
 
 
 def gen_b58(ctx):
